@@ -32,7 +32,7 @@ Theorem C19_best_never_worse_after_resume mx evs s s' b b' : hrun s evs = Some s
 Proof. exact (tree_best_never_worse mx evs s s' b b'). Qed.
 Print Assumptions C19_best_never_worse_after_resume.
 
-(* non-vacuity: the state after the first 9 events of the example run satisfies the invariants, and the rest of the run resumes from it *)
-Example C19_example : exists s1 s2, run ex_cfg (init 10) (firstn 9 ex_events) = Some s1 /\ pc s1 = PMain /\ length (demes s1) = 3 /\
-  run ex_cfg s1 (skipn 9 ex_events) = Some s2 /\ pc s2 = PDone /\ total_evals (demes s2) - total_evals (demes s1) = clock s2 - clock s1.
+(* non-vacuity: the state after the first 8 events of the example run satisfies the invariants, and the rest of the run resumes from it *)
+Example C19_example : exists s1 s2, run ex_cfg (init 10) (firstn 8 ex_events) = Some s1 /\ pc s1 = PMain /\ length (demes s1) = 3 /\
+  run ex_cfg s1 (skipn 8 ex_events) = Some s2 /\ pc s2 = PDone /\ total_evals (demes s2) - total_evals (demes s1) = clock s2 - clock s1.
 Proof. vm_compute. eexists. eexists. repeat split. Qed.
